@@ -29,6 +29,7 @@ func (c *FCtx) execBlock(st *State, stmts []ast.Stmt) []Flow {
 			flows := c.execStmt(cs, s, stmts[i+1:])
 			for _, f := range flows {
 				if f.kind == fNormal {
+					c.afterAsserts(f.st, s)
 					next = append(next, f.st)
 				} else if f.kind == fBlockDone {
 					done = append(done, f.st)
@@ -1209,4 +1210,27 @@ func (c *FCtx) unrollLoop(st *State, lp *loopParts, iter func(s *State) []Flow, 
 		}
 	}
 	return out
+}
+
+// afterAsserts: `after pkg.F k assert E` clauses anchored at statement s: proved in the state after s, then assumed.
+func (c *FCtx) afterAsserts(st *State, s ast.Stmt) {
+	if c.curCon == nil || len(c.curCon.Afters) == 0 || c.fi == nil {
+		return
+	}
+	if ls, ok := s.(*ast.LabeledStmt); ok {
+		s = ls.Stmt
+	}
+	for _, ak := range c.fi.Anchors[s] {
+		for k, cl := range c.curCon.Afters[ak] {
+			if !cl.visible(c.prop) {
+				continue
+			}
+			env := c.bodyEnv(st, s.End())
+			t := env.evalBool(cl.E)
+			if !c.dry {
+				c.oblige(st, "assert", fmt.Sprintf("after[%s]/assert[%d] %s", ak, k+1, cl.Src), t, c.eng.pos(s))
+			}
+			st.assume(t)
+		}
+	}
 }
